@@ -1,4 +1,117 @@
 import RP.Driver.Common
--- line-protocol driver for property C16 (stub)
-def handle (_line : String) : String := "unimplemented"
-def main : IO Unit := RP.Driver.run handle
+import RP.Model.Parse
+/-! line-protocol driver for C16: `parse-<type> <hex utf8>` → `ok <value>` / `err` / `panic`,
+`print-<type> <value>` → hex of the printed string, `upper|lower|ws <code point>` → the
+driver's Unicode instantiation (`RP.Parse.rustU`) as far as the parsers can see it. -/
+open RP.Driver RP.Codec RP.Parse
+
+namespace RP.DriverC16
+
+def hexVal (c : Char) : Option Nat :=
+  if '0' ≤ c ∧ c ≤ '9' then some (c.toNat - 48)
+  else if 'a' ≤ c ∧ c ≤ 'f' then some (c.toNat - 87)
+  else none
+
+def hexBytes : List Char → Option (List UInt8)
+  | [] => some []
+  | [_] => none
+  | a :: b :: rest =>
+    match hexVal a, hexVal b, hexBytes rest with
+    | some x, some y, some r => some (UInt8.ofNat (16 * x + y) :: r)
+    | _, _, _ => none
+
+/-- `-` stands for the empty string -/
+def decodeArg (s : String) : Option (List Char) :=
+  if s = "-" then some [] else
+  match hexBytes s.toList with
+  | some bs => (String.fromUTF8? (ByteArray.mk bs.toArray)).map String.toList
+  | none => none
+
+def hexDigit (n : Nat) : Char := if n < 10 then Char.ofNat (48 + n) else Char.ofNat (87 + n)
+def encode (cs : List Char) : String :=
+  if cs.isEmpty then "-" else
+  String.ofList ((String.ofList cs).toUTF8.toList.flatMap (fun b => [hexDigit (b.toNat / 16), hexDigit (b.toNat % 16)]))
+
+def nat? (s : String) : Option Nat := s.toNat?
+def int? (s : String) : Option Int :=
+  if s.startsWith "-" then (s.drop 1).toNat?.map (fun n => - (Int.ofNat n)) else s.toNat?.map Int.ofNat
+
+def showOutcome {α : Type} (f : α → String) : Outcome α → String
+  | .ok v => s!"ok {f v}"
+  | .err => "err"
+  | .panic => "panic"
+
+def showAction : Action → String
+  | .fold => "fold" | .check => "check"
+  | .call x => s!"call:{x}" | .raise x => s!"raise:{x}" | .shove x => s!"shove:{x}" | .blind x => s!"blind:{x}"
+  | .draw h => s!"draw:{h}"
+def readAction (s : String) : Option Action :=
+  match s.splitOn ":" with
+  | ["fold"] => some .fold
+  | ["check"] => some .check
+  | ["call", x] => (int? x).map .call
+  | ["raise", x] => (int? x).map .raise
+  | ["shove", x] => (int? x).map .shove
+  | ["blind", x] => (int? x).map .blind
+  | ["draw", h] => (nat? h).map .draw
+  | _ => none
+def showTurn : Turn → String
+  | .terminal => "terminal" | .chance => "chance" | .choice n => s!"choice:{n}"
+def readTurn (s : String) : Option Turn :=
+  match s.splitOn ":" with
+  | ["terminal"] => some .terminal
+  | ["chance"] => some .chance
+  | ["choice", n] => (nat? n).map .choice
+  | _ => none
+
+/-- code points of a mapped string, every maximal run of non-ASCII characters shown as one 128 -/
+def projectAux : List Char → Bool → List String
+  | [], _ => []
+  | c :: cs, prevNonAscii =>
+    if c.toNat < 128 then toString c.toNat :: projectAux cs false
+    else if prevNonAscii then projectAux cs true else "128" :: projectAux cs true
+def project (cs : List Char) : String := " ".intercalate (projectAux cs false)
+
+def U := rustU
+
+def handle (line : String) : String :=
+  match words line with
+  | ["parse-card", h] => match decodeArg h with | some s => showOutcome toString (parseCard U s) | none => "bad-op"
+  | ["parse-hand", h] => match decodeArg h with | some s => showOutcome toString (parseHand U s) | none => "bad-op"
+  | ["parse-hole", h] => match decodeArg h with | some s => showOutcome toString (parseHole U s) | none => "bad-op"
+  | ["parse-obs", h] => match decodeArg h with
+    | some s => showOutcome (fun o => s!"{o.pocket} {o.board}") (parseObs U s)
+    | none => "bad-op"
+  | ["parse-street", h] => match decodeArg h with | some s => showOutcome toString (parseStreet U s) | none => "bad-op"
+  | ["parse-abs", h] => match decodeArg h with
+    | some s => showOutcome (fun a => s!"{a.variant}:{a.bits}") (parseAbs U s)
+    | none => "bad-op"
+  | ["parse-action", h] => match decodeArg h with | some s => showOutcome showAction (parseAction U s) | none => "bad-op"
+  | ["parse-turn", h] => match decodeArg h with | some s => showOutcome showTurn (parseTurn s) | none => "bad-op"
+  | ["print-card", c] => match nat? c with | some c => encode (printCard c) | none => "bad-op"
+  | ["print-hand", c] => match nat? c with | some c => encode (printHand c) | none => "bad-op"
+  | ["print-obs", p, b] => match nat? p, nat? b with
+    | some p, some b => encode (printObs ⟨p, b⟩)
+    | _, _ => "bad-op"
+  | ["print-street", c] => match nat? c with | some c => if c < 4 then encode (printStreet c) else "bad-op" | none => "bad-op"
+  | ["print-abs", n] => match nat? n with
+    | some n => (match absOfU64 n with
+      | some a => (match printAbs U a with | some s => encode s | none => "panic")
+      | none => "panic")
+    | none => "bad-op"
+  | ["print-action", a] => match readAction a with | some a => encode (printAction a) | none => "bad-op"
+  | ["print-turn", t] => match readTurn t with | some t => encode (printTurn t) | none => "bad-op"
+  | ["upper", c] => match nat? c with
+    | some c => if c.isValidChar then project (U.upper [Char.ofNat c]) else "bad-op"
+    | none => "bad-op"
+  | ["lower", c] => match nat? c with
+    | some c => if c.isValidChar then project (U.lower [Char.ofNat c]) else "bad-op"
+    | none => "bad-op"
+  | ["ws", c] => match nat? c with
+    | some c => if c.isValidChar then (if U.isWs (Char.ofNat c) then "1" else "0") else "bad-op"
+    | none => "bad-op"
+  | _ => "bad-op"
+
+end RP.DriverC16
+
+def main : IO Unit := RP.Driver.run RP.DriverC16.handle
